@@ -177,6 +177,9 @@ func (o *c07) onBuilt(n int, ref *blockRef) {
 	}
 	if penInc.Sign() > 0 {
 		r.Probe("penalty-paid")
+		if periodEnd && len(hdr.SlashData) == 0 {
+			r.Probe("inactivity-penalty-paid")
+		}
 	}
 	if !periodEnd {
 		// (3b) fees: outside period ends nothing but gas, the subsidy, detained stakes and
@@ -346,6 +349,9 @@ func (o *c07) settlements(n int, v *headView, hdr *types.Header) {
 		}
 		if a != nil && (a.Coinbase != b.Coinbase || len(a.Delegations) > 0) {
 			continue
+		}
+		if cb, ok := o.s.cbChanged[addr]; ok && a == nil && n-cb < int(o.s.sc.F) {
+			continue // deleted in the period in which its reward address was changed: paid to the new one
 		}
 		sumBefore := new(big.Int).Add(b.RewardsDistributable, o.prev.balance(b.Coinbase))
 		sumAfter := new(big.Int).Add(rdAfter, v.balance(b.Coinbase))
